@@ -114,6 +114,17 @@ jsn('59-json-depth-64', "64 levels: accepted, the model needs no more than limit
 jsn('59b-json-depth-65', "65 levels: refused before parsing", [(65,'['),(65,']')])
 jsn('59c-json-control-char-in-string', "a raw tab inside a string is refused, DEL is fine", ['["a\tb"]'])
 jsn('59d-json-literals-case', "TRUE is not a literal", ['[true, TRUE]'])
+def oneof(name, comment, key, x, alts):
+    lines=head(comment,'mode oneof '+key,None)+['x '+hx(x)]+['a '+hx(a) for a in alts]
+    open(os.path.join(OUT,name+'.ops'),'w').write('\n'.join(lines)+'\n')
+for i,(tn,t) in enumerate([('cr','\r'),('ff','\x0c'),('vt','\x0b'),('nel','\u0085'),('ls','\u2028'),('ps','\u2029'),('crlf','\r\n'),('lf','\n')]):
+    nest='['*100+']'*100+','
+    oneof('6%d-comment-terminator-%s'%(i,tn), 'where a // comment ends: `%s` after the comment body, then 100 nested brackets on the same line.\nThe text must be read as one of its two explicit spellings by the pre-scan and all five entry points together\n(only LF and the end of the input end a comment: everything else keeps the brackets inside the comment).'%tn,
+        'comment-end-inconsistent', '[1, // c'+t+nest+'\n 2]', ['[1,  '+nest+'\n 2]', '[1, \n 2]'])
+oneof('68-comment-terminator-kql-cr', 'the same through parse_kip / parse_kql', 'comment-end-inconsistent',
+    'FIND(?x) WHERE { ?x { a : [ // c\r'+'['*100+']'*100+',\n 1 ] } }', ['FIND(?x) WHERE { ?x { a : [  '+'['*100+']'*100+',\n 1 ] } }', 'FIND(?x) WHERE { ?x { a : [ \n 1 ] } }'])
+oneof('69-comment-at-eof-with-brackets', 'a comment that the end of the input terminates, full of brackets', 'comment-end-inconsistent',
+    'DESCRIBE PRIMER // '+'['*100, ['DESCRIBE PRIMER'])
 raw('40-mutate-3000-clauses', 'MEASURED: validate_plan clones the handle set once per clause: quadratic (1000 clauses 0.17 s, 2000 0.45 s, 4000 2.0 s, 8000 9.6 s for all entry points)',
     ['MUTATE{']+['CREATE CONCEPT ?h%x{}'%i for i in range(3000)]+['}'], 'ok')
 print(len(os.listdir(OUT)))
